@@ -144,6 +144,14 @@ def r18_3(cx):
     for e, val, edge in fn.facts_at(pc.bb):
         if e.kind == 'discr' and is_call(e.a, 'Mutex::try_lock') and val == ('in', frozenset([0])):
             ok = True
+    if not ok:
+        # the same fact by data flow: the write token handed to the publisher is the guard inside try_lock()'s Ok
+        # (through whatever Option / helper carries it there): there is no such guard on the Err edges
+        tok = pc.arg(1)
+        guards = [n for n in tok.walk() if n.kind == 'call' and (n.op.endswith('Mutex::try_lock') or n.op.endswith('Mutex::lock'))]
+        from_ok = [n for n in tok.walk() if n.kind == 'proj' and n.op == 'downcast' and n.info.get('n') == 'Ok' and is_call(n.a, 'Mutex::try_lock')]
+        ok = bool(guards) and all(g.op.endswith('Mutex::try_lock') for g in guards) and len(from_ok) >= 1 and \
+            all(any(g is d.a.strip() or show(g) == show(d.a.strip()) for d in from_ok) for g in guards)
     cx.check(ok, 'publish-on-Ok', fn, pc.loc(), 'the publisher is called only on the Ok edge of try_lock',
              fail_detail='the publisher call is not dominated by try_lock() == Ok')
     # every return not passing the publisher returns constant false
